@@ -166,6 +166,17 @@ pub fn interleave(p: &mut Prng, mut queues: Vec<Vec<Value>>) -> Vec<Value> {
     out
 }
 
+/// Random interleaving order for a `par` op: which of the two caller threads proceeds at each
+/// scheduling point (op start, every RNG draw, op end).
+pub fn par_order(p: &mut Prng) -> String {
+    let n = p.range(2, 8);
+    (0..n).map(|_| if p.chance(1, 2) { 'A' } else { 'B' }).collect()
+}
+
+pub fn par(a: Value, b: Value, order: &str) -> Value {
+    json!({"op":"par","a":a,"b":b,"order":order})
+}
+
 pub fn rng_json(s: &RngScript) -> Value {
     s.to_json()
 }
@@ -206,4 +217,27 @@ pub fn rng_edge_menu(order: &BigUint) -> Vec<(&'static str, [u8; 32])> {
         ("limb2-zero", be32(&limb(top, 0, 0x9e3779b97f4a7c15, 0xd1342543de82ef95))),
         ("limbs1-2-zero", be32(&limb(top | 1, 0, 0, 0xd1342543de82ef95))),
     ]
+}
+
+/// Identity pairs that collide under common 32-bit string hashes and weaker digests
+/// (corpus/id_collisions.json, made by tools/mk_collisions.py): (family, a, b).
+pub fn id_collisions() -> &'static Vec<(String, Vec<u8>, Vec<u8>)> {
+    static T: std::sync::OnceLock<Vec<(String, Vec<u8>, Vec<u8>)>> = std::sync::OnceLock::new();
+    T.get_or_init(|| {
+        let path = std::path::PathBuf::from(std::env::var("GMSIM_VERIF_DIR").unwrap_or_else(|_| "/verif".into())).join("corpus/id_collisions.json");
+        let txt = std::fs::read_to_string(&path).unwrap_or_else(|e| {
+            eprintln!("HARNESS ERROR: cannot read {}: {e}", path.display());
+            std::process::exit(2)
+        });
+        let v: Value = serde_json::from_str(&txt).expect("id_collisions.json");
+        let mut out = vec![];
+        for (fam, pairs) in v.as_object().expect("object") {
+            for p in pairs.as_array().expect("array") {
+                let a = p[0].as_str().expect("str").as_bytes().to_vec();
+                let b = p[1].as_str().expect("str").as_bytes().to_vec();
+                out.push((fam.clone(), a, b));
+            }
+        }
+        out
+    })
 }
